@@ -68,3 +68,16 @@ Example C14_nonvacuous :
   map d_p1 (iter_end (fun u => negb (Nat.eqb u 3)) (1#1) 1 es) = [0] /\
   map d_p1 (iter_end (fun _ => true) (1#1) 2 es) = [1] /\ get_source [4; 7] [2; 1] = [4; 4; 7].
 Proof. vm_compute. repeat split; reflexivity. Qed.
+
+(* the creation rule of the Erdos-Renyi network: the pair number combined from two UNSIGNED 64-bit draws lies in [0, 1], and the pair is an edge exactly when
+   its 64-bit pattern is at most p (2^64 - 1) -- a fraction of the 2^64 patterns within 2^-64 of p; the source hands the draws over unsigned (generated flag) *)
+Theorem C14_erdos_renyi_pair_number_in_unit_interval : forall a b, (0 <= combine_u64 a b <= 1)%Q.
+Proof. exact combine_u64_unit_interval. Qed.
+Theorem C14_erdos_renyi_edge_law : forall a b p, er_edge (combine_u64 a b) p = true <-> (inject_Z (combine_bits a b) <= p * inject_Z (two64 - 1))%Q.
+Proof. exact er_edge_unsigned_law. Qed.
+Theorem C14_erdos_renyi_draws_are_unsigned : erdosrenyi_unsigned_draws_gen = true.
+Proof. reflexivity. Qed.
+(* ... whereas the SIGNED reading of the same bits (the defect repaired by 2bfb5eb) accepts the whole upper half of the patterns for every p >= 0: edge probability 1/2 + p *)
+Theorem C14_erdos_renyi_signed_reading_accepts_half : forall a b p, (0 <= p)%Q -> (two64 / 2 <= combine_bits a b)%Z -> er_edge (combine_i64 a b) p = true.
+Proof. exact er_edge_signed_accepts_upper_half. Qed.
+Print Assumptions C14_erdos_renyi_pair_number_in_unit_interval. Print Assumptions C14_erdos_renyi_edge_law. Print Assumptions C14_erdos_renyi_signed_reading_accepts_half.
